@@ -1,3 +1,57 @@
 package main
 
-func extraCmd(name string, args []string) bool { return false }
+import (
+	"flag"
+	"os"
+	"strings"
+
+	"github.com/goplus/llgo/zz_verif_symx/gofe"
+)
+
+func extraCmd(name string, args []string) bool {
+	switch name {
+	case "slice":
+		cmdSlice(args)
+		return true
+	}
+	return extraCmd2(name, args)
+}
+
+func cmdSlice(args []string) {
+	fs := flag.NewFlagSet("slice", flag.ExitOnError)
+	dir := fs.String("dir", ".", "")
+	pkg := fs.String("pkg", ".", "")
+	tags := fs.String("tags", "", "")
+	out := fs.String("out", "", "")
+	pkgname := fs.String("pkgname", "", "")
+	var overlays, roots, rewrites multi
+	fs.Var(&overlays, "overlay", "virtual=real")
+	fs.Var(&roots, "root", "root declaration name")
+	fs.Var(&rewrites, "rewrite", "oldimport=newimport")
+	fs.Parse(args)
+	ov := map[string][]byte{}
+	for _, o := range overlays {
+		kv := strings.SplitN(o, "=", 2)
+		b, err := os.ReadFile(kv[1])
+		if err != nil {
+			fatal(err)
+		}
+		ov[kv[0]] = b
+	}
+	lc := gofe.LoadConfig{Dir: *dir, Pattern: *pkg, Overlay: ov}
+	if *tags != "" {
+		lc.Tags = strings.Split(*tags, ",")
+	}
+	rw := map[string]string{}
+	for _, r := range rewrites {
+		kv := strings.SplitN(r, "=", 2)
+		rw[kv[0]] = kv[1]
+	}
+	b, err := gofe.Slice(lc, roots, rw, *pkgname)
+	if err != nil {
+		fatal(err)
+	}
+	if err := os.WriteFile(*out, b, 0644); err != nil {
+		fatal(err)
+	}
+}
